@@ -630,6 +630,11 @@ func (x *Exec) arithResult(st *State, term string, ti TInfo, p token.Pos, text s
 	if ti.Signed && x.wraps {
 		return Scalar{app("wrapS", term, pow2str(ti.Bits-1)), ti}
 	}
+	if ti.Signed && isInt64(ti.Typ) {
+		// A-int64: arithmetic on int64 stream offsets is treated as mathematical
+		// (listed as an assumption in every evidence file)
+		return Scalar{term, ti}
+	}
 	if ti.Signed {
 		// name the result to keep terms small
 		r := x.fc.fresh("t", "Int")
@@ -1021,4 +1026,12 @@ func (x *Exec) convert(st *State, v Value, from, to types.Type, p token.Pos, tex
 	}
 	x.abort("unsupported conversion %s -> %s", from, to)
 	return nil
+}
+
+func isInt64(t types.Type) bool {
+	if t == nil {
+		return false
+	}
+	b, ok := t.Underlying().(*types.Basic)
+	return ok && b.Kind() == types.Int64
 }
